@@ -1156,7 +1156,7 @@ fn c05_async_server(case: &Case) {
         let writer = tokio::spawn(async move {
             for (i, len) in sz.iter().enumerate() {
                 let id = i as u64 + 1;
-                let f = Frame::new(id, b"/custom/plain", &pattern(id, *len));
+                let f = Frame::new(id, if simkernel::choose(3) == 0 { &b"/custom/ownecho"[..] } else { &b"/custom/plain"[..] }, &pattern(id, *len));
                 if wr.write_all(&f.encode()).await.is_err() {
                     return wr;
                 }
@@ -1219,7 +1219,7 @@ fn c05_async_server(case: &Case) {
 
 // =========================================================================== C03 (server)
 
-async fn pipeline(addr: std::net::SocketAddr, reqs: &[Req], expect_n: usize) -> Option<Vec<Frame>> {
+async fn pipeline(addr: std::net::SocketAddr, reqs: &[Req], expect_n: usize, pace_ms: Option<u64>) -> Option<Vec<Frame>> {
     let s = TcpStream::connect(addr).await.ok()?;
     let (rd, mut wr) = s.into_split();
     let frames: Vec<Vec<u8>> = reqs.iter().map(|r| r.frame().encode()).collect();
@@ -1230,7 +1230,9 @@ async fn pipeline(addr: std::net::SocketAddr, reqs: &[Req], expect_n: usize) -> 
             if wr.write_all(&f).await.is_err() {
                 break;
             }
-            if simkernel::choose(4) == 0 {
+            if let Some(ms) = pace_ms {
+                sleep_ms(ms).await;
+            } else if simkernel::choose(4) == 0 {
                 sleep_us(simkernel::choose(300) as u64).await;
             }
         }
@@ -1263,21 +1265,30 @@ fn c03_async_server(case: &Case) {
     net::reset(draw_net());
     let n_mw = range(0, 2);
     let mw_first = simkernel::choose(2) == 0;
-    let mut reqs = gen_requests(draw_len());
+    // "paced": a short read timeout (50 ms) on a connection that is never idle that long -
+    // one request every 10 ms on an instant network - but stays in use for longer than that
+    let paced = simkernel::choose(5) == 0;
+    let mut reqs = gen_requests(if paced { range(7, 16) as usize } else { draw_len() });
     sanitize(&mut reqs);
+    if paced {
+        net::set_config(NetConfig { capacity: 1 << 20, lat_min: 0, lat_max: 0, max_segment: 0 });
+    }
     let expect_n = reqs.iter().filter(|r| model(r).ec.is_some()).count();
-    case.sample(json!({"middlewares": n_mw, "requests": reqs.iter().map(|r| format!("{}{} v{} q{} b{} {}B", if r.notify {"notify "} else {""}, r.what, r.version, r.qfmt, r.bfmt, r.body.len())).collect::<Vec<_>>()}));
+    case.sample(json!({"middlewares": n_mw, "paced_with_50ms_read_timeout": paced, "requests": reqs.iter().map(|r| format!("{}{} v{} q{} b{} {}B", if r.notify {"notify "} else {""}, r.what, r.version, r.qfmt, r.bfmt, r.body.len())).collect::<Vec<_>>()}));
     let case = case.clone();
     aio::run_or_error(&case.clone(), 3_600, async move {
         let counters = Arc::new(Counters::default());
         let router = build_router(&counters, n_mw, mw_first);
         let listener = AsyncServer::listen("127.0.0.1:0").await.unwrap();
         let addr = listener.local_addr().unwrap();
-        let (rt, wt) = (pick(&[None, Some(Duration::from_secs(3_600))]), pick(&[None, Some(Duration::from_secs(3_600))]));
+        let (mut rt, wt) = (pick(&[None, Some(Duration::from_secs(3_600))]), pick(&[None, Some(Duration::from_secs(3_600))]));
+        if paced {
+            rt = Some(Duration::from_millis(50));
+        }
         let server = tokio::spawn(async move {
             let _ = AsyncServer::new(router).read_timeout(rt).write_timeout(wt).serve(listener).await;
         });
-        let Some(responses) = pipeline(addr, &reqs, expect_n).await else {
+        let Some(responses) = pipeline(addr, &reqs, expect_n, paced.then_some(10)).await else {
             case.harness_error("connect failed");
             return;
         };
